@@ -235,7 +235,7 @@ PROPS = {
         "coq": ["Props/C15.v"],
         "level": "proof",
         "harness": ["gwrun", "purediff"],
-        "stages": [("pure", stage_pure, {"suites": ["ressub", "lcs", "throttle"], "n_quick": 3000, "n_thorough": 60000}),
+        "stages": [("pure", stage_pure, {"suites": ["ressub", "lcs", "throttle", "valuedec"], "n_quick": 3000, "n_thorough": 60000}),
                    ("gw", stage_gw, {"profiles": [("malformed", 1500, 10000), ("churn", 600, 4000), ("query", 500, 3000)],
                                      "monitor_props": ("C15", "C01", "C02", "C03", "C07")}),
                    # unrestricted reference graphs and no trigger avoidance: process death and stalls (and the C15 monitor) only;
@@ -245,9 +245,12 @@ PROPS = {
                 "malformed or protocol-violating answers to get/access/call/auth requests, malformed and inapplicable resource events (wrong kind, bad "
                 "index, improper value, undecodable), malformed system and connection events injected at random points of otherwise valid histories "
                 "(plus unrestricted reference graphs with cycles); a process death, a scheduler stall (work pending, nothing runnable) or a divergence of "
-                "any client's copy from the untouched service truth is a violation; plus direct-drive op sequences with bad events on one cached resource",
+                "any client's copy from the untouched service truth is a violation; plus direct-drive op sequences with bad events on one cached resource; "
+                "plus the value decoder codec.Value.UnmarshalJSON on generated value texts (objects of 0-4 members over the four field names in any ASCII case, "
+                "foreign keys, duplicates, nulls, wrong JSON types, valid / empty / invalid rids, delete / unknown actions, data of every JSON kind, blanks) compared "
+                "with the extracted model Pure/ValueDec.v: type, rid, raw text, inner text or the kind of rejection",
         "assumptions": ["memory exhaustion and the encoding/json / gorilla layers are outside the model"],
-        "technique": "Coq proofs (inapplicable events discarded as a whole; diff indices always in range; throttle never panics) + fault injection into scheduled histories of the real gateway, one process per history, with the Coq monitors checking that bad input has no effect",
+        "technique": "Coq proofs (inapplicable events discarded as a whole; diff indices always in range; throttle never panics; value objects: a reference needs a non-empty valid rid and nothing else, delete needs exactly the delete action, acceptance needs exactly one of rid/action/data and no ill-typed member) + differential correspondence of the real value decoder with the extracted model + fault injection into scheduled histories of the real gateway, one process per history, with the Coq monitors checking that bad input has no effect",
         "level_text": "Decision logic for discarding bad input proved on the cache-side model (tied by direct-drive differential); process survival and absence of stalls checked by fault injection on the real code",
         "level_note": "trusted: Coq kernel, extraction, the harness (mock messaging system, consistent mock service, scheduler hooks, frame abstraction in harness/internal/gw); task atomicity (DESIGN section 4); modelled not verified: encoding/json, gorilla/websocket",
     },
